@@ -105,8 +105,8 @@ def pickleLine (compress : Bool) (ident : Nat → Nat) (s : Session) : String :=
   let st := store compress s
   let j := settingsJ ident st
   let e : Envelope := { id := 0, timeout := 0, step := s.step, stored := st }
-  let rt := if (pickleCodec ⟨true, true, true⟩ ident).dec ((pickleCodec ⟨true, true, true⟩ ident).enc e) == some e then "ok" else "FAIL"
-  let pl := match (pickleCodec ⟨false, true, true⟩ ident).dec ((pickleCodec ⟨false, true, true⟩ ident).enc e) with
+  let rt := if (pickleCodec ⟨true, true, true, true⟩ ident).dec ((pickleCodec ⟨true, true, true, true⟩ ident).enc e) == some e then "ok" else "FAIL"
+  let pl := match (pickleCodec ⟨false, true, true, true⟩ ident).dec ((pickleCodec ⟨false, true, true, true⟩ ident).enc e) with
     | some e' => if e' == e then "same" else "differs"
     | none => "differs"
   s!"{fmtPickle compress j};rt={rt};plain={pl}"
@@ -180,4 +180,4 @@ partial def loop (h : IO.FS.Stream) (s : Option Session) (i : Inst) : IO Unit :=
     loop h s' i'
 
 def main : IO Unit := do
-  loop (← IO.getStdin) none { cfg := { decoderResolvesRefs := true, saveAfterEveryStepRequest := true, restoreKeepsClock := true }, ist := IState.init, pending := [] }
+  loop (← IO.getStdin) none { cfg := { decoderResolvesRefs := true, saveAfterEveryStepRequest := true, restoreKeepsClock := true, compressIsPure := true }, ist := IState.init, pending := [] }
